@@ -796,4 +796,10 @@ SILENT = [
     Silent("await-single-polling-loop", D,
            "        while True:\n            if self.paused:\n                # If we're paused, we have no result to give\n                yield self\n                continue\n\n            result = getattr(self, \"result\", _NO_RESULT)\n            if result is _NO_RESULT:\n                yield self\n                continue\n\n            if isinstance(result, Failure):\n                # Clear the failure on debugInfo so it doesn't raise \"unhandled\n                # exception\"\n                assert self._debugInfo is not None\n                self._debugInfo.failResult = None\n                result.raiseException()\n            else:\n                return result  # type: ignore[return-value]\n",
            "        while True:\n            result = _NO_RESULT if self.paused else getattr(self, \"result\", _NO_RESULT)\n            if result is not _NO_RESULT:\n                break\n            yield self\n        if not isinstance(result, Failure):\n            return result\n        assert self._debugInfo is not None\n        self._debugInfo.failResult = None\n        result.raiseException()\n"),
+    Silent("resume-selected-through-a-tuple", D, "            if isFailure:\n                result = context.run(\n                    cast(Failure, result).throwExceptionIntoGenerator, gen\n                )\n            else:\n                result = context.run(gen.send, result)\n",
+           "            if isFailure:\n                step, what = cast(Failure, result).throwExceptionIntoGenerator, gen\n            else:\n                step, what = gen.send, result\n            result = context.run(step, what)\n"),
+    Silent("return-handled-after-the-loop", D, "            stopIteration = True\n            callbackValue = getattr(e, \"value\", None)\n", "            callbackValue = getattr(e, \"value\", None)\n            break\n",
+           more=[(D, "            stopIteration = True\n            callbackValue = e.value\n", "            callbackValue = e.value\n            break\n"),
+                 (D, "        if stopIteration:\n            # Call the callback outside of the exception handler to avoid inappropriate/confusing\n            # \"During handling of the above exception, another exception occurred:\" if the callback\n            # itself throws an exception.\n            status.deferred.callback(callbackValue)\n            return\n\n", ""),
+                 (D, "            waiting[0] = True\n            waiting[1] = None\n\n\ndef _addCancelCallbackToDeferred(", "            waiting[0] = True\n            waiting[1] = None\n\n    status.deferred.callback(callbackValue)\n\n\ndef _addCancelCallbackToDeferred(")]),
 ]
